@@ -89,8 +89,18 @@ def skip_obs(p):
 def html_obs(p):
     """Canonical observation of a _HtmlTreeBuilder: (tree, stack tags top first, last_closed set,
     skip_depth, _skip_tag while skipping) + the structural invariants the model relies on."""
-    def conv(n):
-        return (n["tag"], tuple(n["attrs"].items()), n["text"], tuple(conv(c) for c in n["children"]), n["tail"])
+    def conv(root):
+        # iterative post-order (documents are sampled up to several hundred levels deep)
+        done = {}
+        stack = [(root, False)]
+        while stack:
+            n, seen = stack.pop()
+            if seen:
+                done[id(n)] = (n["tag"], tuple(n["attrs"].items()), n["text"], tuple(done[id(c)] for c in n["children"]), n["tail"])
+            else:
+                stack.append((n, True))
+                stack.extend((c, False) for c in n["children"])
+        return done[id(root)]
     inv = p.stack[0] is p.root
     for i in range(len(p.stack) - 1):
         ch = p.stack[i]["children"]
@@ -164,6 +174,25 @@ def spec_visible_text(evs):
     return "".join(out)
 
 
+# nesting depths / sibling counts that are sampled (small values, powers of two and round numbers with their neighbours):
+# behaviour must not change with scale (caps, thresholds, recursion guards)
+SCALES = [1, 2, 3, 8, 16, 17, 32, 33, 50, 64, 65, 100, 101, 128, 129, 200, 201, 250, 255, 256, 257, 258, 300, 400, 500, 512, 513, 600]
+
+
+def deep_events(shape, d, tags):
+    """(pre, closing): d elements opened (and left open: 'unclosed', or closed afterwards: 'nested'), or d closed siblings ('wide')"""
+    pre, closing = [], []
+    for i in range(d):
+        tg = tags[i % len(tags)]
+        if shape == "wide":
+            pre += [("S", tg, ()), ("D", "w"), ("E", tg)]
+        else:
+            pre += [("S", tg, ()), ("D", "l ")]
+            if shape == "nested":
+                closing.insert(0, ("E", tg))
+    return pre, closing
+
+
 DATA = ["x", " y ", "a\nb", "\u00a0z", "T\u2003w", ""]
 ATTRS = [(), (("href", "u"),), (("id", "a"), ("id", "b")), (("hidden", None), ("src", "x")), (("class", "c"), ("x", None), ("class", "d"))]
 
@@ -216,6 +245,14 @@ def event_correspondence(ctx, H, E):
         html_lists.append(random_events(rng, html_more, rng.randint(4, 24)))
         epub_lists.append(random_events(rng, epub_more, rng.randint(4, 24)))
 
+    # scale: deep stacks and long sibling runs, with a removable element at the far end (model has no notion of a cap)
+    for d in (64, 129, 257, 300) + ((513,) if L == 4 else ()):
+        for shape, tags in (("unclosed", ["p", "li", "font"]), ("nested", ["div", "blockquote"]), ("wide", ["p", "td"])):
+            pre_e, closing = deep_events(shape, d, tags)
+            r = rng.choice(["script", "noscript", "object", "iframe", "style", "applet"])
+            seg = [("S", r, ()), ("D", "hid"), ("S", "img", ()), ("E", "b"), ("E", r)]
+            html_lists.append(pre_e + seg + [("D", "after")] + closing + [("D", "end")])
+            epub_lists.append(pre_e + seg + [("D", "after")] + closing + [("D", "end")])
     pre = "From S2T Require Import Lib.PyStr C17.Model C17.Corr Gen.C17Tables.\n"
     # ---- HTML
     cases, bad_inv, raised = [], [], []
@@ -341,6 +378,23 @@ def event_oracle(ctx, H, E):
                 if not same(name, cls, obs, a, sib_pre + sib_post):
                     ctx.finding(f"{name}:order-around-removed", f"{name}: <{r}> between a closed sibling and following text changes where "
                                 f"that text is attached (events {a!r})", {"machine": name, "events": a, "without": sib_pre + sib_post})
+        # scale: the element is removed cleanly however many elements are open / have been seen before it
+        for shape, tagset in (("unclosed", ["p", "li", "font", "td"]), ("nested", ["div", "blockquote", "span"]), ("wide", ["p", "tr", "td"])):
+            reported = False
+            for d in SCALES:
+                pre_e, closing = deep_events(shape, d, tagset)
+                r = rng.choice([x for x in removable if x not in STD_VOID])
+                seg = rng.choice([[("S", r, ()), ("D", "hid"), ("E", r)],
+                                  [("S", r, (("src", "x"),)), ("S", "img", ()), ("D", "hid"), ("S", "p", ()), ("E", "b"), ("E", r)],
+                                  [("S", "embed", ())], [("S", r, ()), ("E", r)]])
+                a = pre_e + seg + [("D", "after")] + closing + [("D", "end")]
+                b = pre_e + [("D", "after")] + closing + [("D", "end")]
+                ctx.case((name, "scale", shape, d, r), True, kind=f"{name}-oracle:scale-{shape}")
+                if not reported and not same(name, cls, obs, a, b):
+                    reported = True
+                    ctx.finding(f"{name}:removed-at-scale-{shape}", f"{name}: a removable element after {d} {shape} elements is not removed cleanly "
+                                f"(segment {seg!r}); smaller scales of the sample {SCALES} are fine",
+                                {"machine": name, "events": a, "without": b, "scale": d, "shape": shape})
         # comments at visible positions are inert
         for a, b in (([("S", "p", ()), ("D", "a"), ("C", "hid"), ("D", "b"), ("E", "p")], [("S", "p", ()), ("D", "a"), ("D", "b"), ("E", "p")]),
                      (pre0 + [("C", "<p>hid</p>")] + post0, pre0 + post0),
@@ -861,6 +915,31 @@ def text_level(ctx, H, E):
             ctx.finding(key, f"{path}: {why} for generated document", {"path": path, "html_body": body, "why": why,
                                                                          "visible": d.visible, "cells": d.cells, "hidden": d.hidden})
 
+    # documents at scale: d open (unclosed / properly nested) elements or d siblings, then a removable element -------------
+    shapes = {
+        "unclosed": lambda d, payload: "<p>vis1z</p>" + "".join(f"<{('p', 'li', 'font')[i % 3]}>lvl\n" for i in range(d)) + f"vis2z {payload} vis3z",
+        "nested": lambda d, payload: ("<p>vis1z</p>" + "".join(f"<{('div', 'blockquote')[i % 2]}>lvl " for i in range(d)) + f"<p>vis2z</p>{payload}<p>vis3z</p>"
+                                      + "".join(f"</{('div', 'blockquote')[(d - 1 - i) % 2]}>" for i in range(d)) + "<p>vis4z</p>"),
+        "wide": lambda d, payload: "<p>vis1z</p>" + "<p>w</p>" * d + f"<p>vis2z</p>{payload}<p>vis3z</p>",
+    }
+    for shape, mk in shapes.items():
+        reported = set()
+        for d in SCALES:
+            dd = Doc(rng)
+            payload = dd.removable(rng.choice([x for x in STATEMENT_REMOVED if x != "embed"]))
+            body = mk(d, payload)
+            dd.visible = ["vis1z", "vis2z", "vis3z"] + (["vis4z"] if shape == "nested" else [])
+            dd.cells = []
+            ctx.case(("text-scale", shape, d, payload), True, kind=f"text-scale-{shape}")
+            bad = evaluate(body, dd)
+            for path, why in bad:
+                fam = family(path, bad)
+                if fam in reported:
+                    continue
+                reported.add(fam)
+                ctx.finding(f"{fam}:removed-at-scale-{shape}", f"{path}: {why} for a removable element after {d} {shape} elements ({payload[:60]!r}...)",
+                            {"path": path, "html_body": body, "why": why, "visible": dd.visible, "hidden": dd.hidden, "scale": d})
+
 
 # ----------------------------------------------------------------------------- charset decoding in front of the parser
 CHARSET_KEY = "html:charset-sniffed-from-removed-markup"
@@ -1052,6 +1131,48 @@ def sniff_correspondence(ctx, H):
     ctx.obligation("correspondence:Sniff.strip == _RE_SNIFF_SKIP_BYTES.sub, Sniff.search2 == _RE_CHARSET_ATTR_BYTES.search (groups 0, 1), "
                    "Sniff.choose == the encoding read_html decodes with", ok and not failing,
                    (f"{len(failing)} disagreements of {len(cases)}, first: {info[failing[0]][:160] if failing else b''!r} " + log)[:1200])
+
+
+# ----------------------------------------------------------------------------- environment independence
+def environment_level(ctx, H, E):
+    """The extraction result of HTML-family inputs must not depend on DEBUG logging, the thread, the time zone or the cwd."""
+    import importlib
+    import common
+    mods = {"mhtml": importlib.import_module("sharepoint2text.parsing.extractors.mhtml_extractor"),
+            "msg": importlib.import_module("sharepoint2text.parsing.extractors.mail.msg_email_extractor")}
+    rng = ctx.rng
+    cases = []
+    for _ in range(ctx.n(90, 300)):
+        d = Doc(rng)
+        body = d.body(rng.randint(1, 4))
+        if rng.random() < 0.3:
+            body += "\n" + rng.choice(EOF_TAILS[rng.choice(sorted(EOF_TAILS))]) % d.hid()
+        cases.append(("doc", body))
+    for shape in ("unclosed", "nested"):
+        for dpt in (40, 300):
+            pre_, clo = ("".join("<p>l\n" for _ in range(dpt)), "") if shape == "unclosed" else ("<div>" * dpt, "</div>" * dpt)
+            cases.append(("doc", f"<p>vis1z</p>{pre_}<script>var hid1z;</script><p>vis2z</p>{clo}"))
+    for _ in range(ctx.n(15, 60)):
+        chs = []
+        for k in range(1, rng.randint(2, 4) + 1):
+            d = Doc(rng)
+            hz = rng.choice(sorted(HAZARDS))
+            chs.append(chapter_doc(d.body(rng.randint(0, 2)), k, rng.choice(HAZARDS[hz]) if rng.random() < 0.6 else None))
+        cases.append(("book", tuple(chs)))
+    for kind, key, raw, visible, hidden, marker in charset_docs(rng, 10)[:60:2]:
+        cases.append(("bytes", raw))
+
+    def fn(case):
+        kind, x = case
+        if kind == "doc":
+            res = run_paths(x, wrap_full(x), H, E, mods)
+            return tuple((k, v[0], tuple(v[1]), None if v[2] is None else tuple(v[2])) for k, v in sorted(res.items()))
+        if kind == "book":
+            return tuple(chapter_view(c) for c in list(E.read_epub(io.BytesIO(epub_bytes(list(x)))))[0].chapters)
+        r = list(H.read_html(io.BytesIO(x)))[0]
+        m = list(mods["mhtml"].read_mhtml(io.BytesIO(mhtml_raw(x))))[0]
+        return (r.content, repr(r.tables), repr(r.headings), repr(r.links), m.content)
+    common.env_sweep(ctx, "html-family-extraction", fn, cases)
 
 
 # ----------------------------------------------------------------------------- chapters are independent
@@ -1679,6 +1800,7 @@ def run(ctx):
     sniff_correspondence(ctx, H)
     charset_level(ctx, H, E)
     chapters_independent(ctx, H, E)
+    environment_level(ctx, H, E)
 
 
 META = {
